@@ -14,11 +14,16 @@ from vf import core, gen, pipe, symx
 ID = "C08"
 
 
+def _less(x, by):
+    return x - by
+
+
 def formulas(tier):
     f = [
         "y ~ x", "y ~ x + f", "y ~ f:x + g", "y ~ f*g", "y ~ 0 + g + x:g", "y ~ center(x) + f", "y ~ scale(x)", "y ~ scale(x):f + z",
         "y ~ poly(x, 2, raw=True)", "y ~ center(x):center(z)", "y ~ C(k) + x", "y ~ C(g, Sum)", "y ~ (x|g)", "y ~ (1|g) + (0 + f|g)", "y ~ (center(x)|g:f)",
         "f ~ x", "g[t] ~ x + f", "y ~ I(x * z) + binary(f, 'a')", "y ~ x + offset(z)", "y ~ I(x * 2)", "y ~ binary(f, 'a')",
+        "y ~ less(x, by=z)", "y ~ center(x=z) + f",  # data columns passed by keyword
     ]
     if tier != "quick":
         f += ["y ~ x*f*g", "y ~ standardize(z):g", "y ~ (x + z|g) + (1|f)", "y ~ T(g, 't') + S(f)", "y ~ h + x:h", "y ~ scale(center(x))", "y ~ (scale(x)|g)", "y ~ C(k, levels=lv):x"]
@@ -120,7 +125,9 @@ def harness(env, case):
     vars_ = gen.used_vars(formula)
     df, rows = gen.build_frame(env, vars_, flavour, "sorted", min_rows=5)
     n = len(df)
-    ns = {"lv": [2, 3, 1]}
+    ns = {"lv": [2, 3, 1], "less": _less}
+    if "z" in df:
+        ns["z"] = np.array(list(df["z"].values), dtype=object if env.mode == "sym" else float)  # a same-named object of the caller (rows in the ORIGINAL order): the column wins
     kind, arg = tr.split(":")
     base = df
     if kind == "na+index":
